@@ -9,6 +9,7 @@ package main
 
 import (
 	"fmt"
+	"go/constant"
 	"go/token"
 	"go/types"
 	"os"
@@ -1192,8 +1193,12 @@ func rulesNewickTokenizer(c *Ctx, r *Report) {
 			stateIdx = append(stateIdx, i)
 		}
 	}
-	if len(stateIdx) != 2 || errIdx < 0 || len(lenIdx) == 0 {
-		r.undecided("TOK", where, "state", pos, fmt.Sprintf("expected two boolean state variables, the read-error condition and the buffer-non-empty condition; found %d/%v/%d", len(stateIdx), errIdx >= 0, len(lenIdx)))
+	if len(stateIdx) == 0 || errIdx < 0 || len(lenIdx) == 0 {
+		r.undecided("TOK", where, "state", pos, fmt.Sprintf("expected the quoting state, the read-error condition and the buffer-non-empty condition; found %d/%v/%d", len(stateIdx), errIdx >= 0, len(lenIdx)))
+		return
+	}
+	if len(stateIdx) != 2 || fsmInitial(m, stateIdx) != nil {
+		rulesTokenizerByReachability(c, r, m, where, pos, stateIdx, lenIdx, errIdx)
 		return
 	}
 	// which state variable is "inside quotes": the one that the quote byte sets from the initial state
@@ -1362,6 +1367,253 @@ func rulesNewickTokenizer(c *Ctx, r *Report) {
 	r.check(len(bad) == 0, "TOK", where, "transition function", pos,
 		fmt.Sprintf("all %d (inside quotes, after a quote, token pending, byte) transitions match the Newick token grammar (%d automaton points)", len(keys), nChecked),
 		"the tokenizer deviates from the Newick token grammar: "+strings.Join(bad, "; "))
+}
+
+// fsmInitial: the values of the state inputs when the loop is entered (a phi's edges from outside the loop, a
+// memory cell's one store before it), nil if they are not constants.
+func fsmInitial(m *fsm, stateIdx []int) []int64 {
+	nl := naturalLoop(m.header)
+	var out []int64
+	for _, si := range stateIdx {
+		in := m.inputs[si]
+		val, found := int64(0), false
+		switch v := in.v.(type) {
+		case *ssa.Phi:
+			if v.Block() != m.header {
+				return nil
+			}
+			for i, pr := range m.header.Preds {
+				if nl[pr] {
+					continue
+				}
+				k, ok := v.Edges[i].(*ssa.Const)
+				if !ok || k.Value == nil {
+					return nil
+				}
+				var kv int64
+				if k.Value.Kind() == constant.Bool {
+					if constant.BoolVal(k.Value) {
+						kv = 1
+					}
+				} else if x, ok := cInt(k.Value); ok {
+					kv = x
+				} else {
+					return nil
+				}
+				if found && kv != val {
+					return nil
+				}
+				val, found = kv, true
+			}
+		case *ssa.Alloc:
+			n := 0
+			for _, ref := range *v.Referrers() {
+				st, ok := ref.(*ssa.Store)
+				if !ok || st.Addr != ssa.Value(v) || nl[st.Block()] || !st.Block().Dominates(m.header) {
+					continue
+				}
+				k, ok := st.Val.(*ssa.Const)
+				if !ok || k.Value == nil || k.Value.Kind() != constant.Bool {
+					return nil
+				}
+				n++
+				if constant.BoolVal(k.Value) {
+					val = 1
+				}
+				found = true
+			}
+			if n > 1 {
+				return nil
+			}
+			if n == 0 {
+				found = true // a variable declared without a value: false
+			}
+		default:
+			return nil
+		}
+		if !found {
+			return nil
+		}
+		out = append(out, val)
+	}
+	return out
+}
+
+// rulesTokenizerByReachability: the tokenizer's transition function compared with the Newick token grammar on
+// the states the tokenizer can reach from its initial state, whatever variables encode them (two flags, one
+// enumeration, …): a simulation is built from the initial state — outside quotes — and every (state, token
+// pending, byte) point of a reached state must act as the grammar says and lead to a state that stands for the
+// grammar's next state.
+func rulesTokenizerByReachability(c *Ctx, r *Report, m *fsm, where, pos string, stateIdx, lenIdx []int, errIdx int) {
+	init := fsmInitial(m, stateIdx)
+	if init == nil {
+		r.undecided("TOK", where, "state", pos, "the initial values of the tokenizer's state variables are not constants")
+		return
+	}
+	key := func(vals []int64) string { return fmt.Sprint(vals) }
+	type spec struct{ q, aq int64 }
+	stands := map[string]spec{key(init): {0, 0}}
+	work := [][]int64{init}
+	names := make([]string, len(stateIdx))
+	for i, si := range stateIdx {
+		names[i] = m.inputs[si].name
+	}
+	retKind := func(k int) string {
+		rt := m.rets[k]
+		if rt == nil {
+			return "?"
+		}
+		ops := retOperands(rt)
+		if len(ops) != 2 {
+			return "?"
+		}
+		if !isNilConst(ops[1]) {
+			return "error"
+		}
+		if cl, ok := ops[0].(*ssa.Call); ok && strings.HasSuffix(qname(cl.Call.StaticCallee()), "Buffer).String") {
+			return "token"
+		}
+		return "byte"
+	}
+	var bad []string
+	note := func(msg string) {
+		if len(bad) < 6 {
+			bad = append(bad, msg)
+		} else if len(bad) == 6 {
+			bad = append(bad, "…")
+		}
+	}
+	nChecked, nStates := 0, 0
+	for len(work) > 0 {
+		cur := work[0]
+		work = work[1:]
+		t := stands[key(cur)]
+		nStates++
+		seen := map[[2]int64]bool{}
+		for k, p := range m.points {
+			if p.vals[errIdx] != 0 {
+				continue
+			}
+			same := true
+			for i, si := range stateIdx {
+				if p.vals[si] != cur[i] {
+					same = false
+				}
+			}
+			if !same {
+				continue
+			}
+			ne := p.vals[lenIdx[0]]
+			agree := true
+			for _, li := range lenIdx {
+				if p.vals[li] != ne {
+					agree = false
+				}
+			}
+			if !agree {
+				continue
+			}
+			b := int(p.vals[m.byteIn])
+			w, u := 0, 0
+			var other []string
+			for _, e := range p.events {
+				switch {
+				case strings.Contains(e, "ReadByte"):
+				case strings.HasSuffix(e, ".WriteByte(b)"):
+					w++
+				case strings.Contains(e, "UnreadByte"):
+					u++
+				case strings.Contains(e, ".Reset("):
+				default:
+					other = append(other, e)
+				}
+			}
+			isNext := strings.HasPrefix(p.exit, "next(")
+			got := fmt.Sprintf("writes=%d unreads=%d", w, u)
+			var next []int64
+			if isNext {
+				got += " next"
+				next = make([]int64, len(stateIdx))
+				for i := range next {
+					next[i] = -1 << 40
+				}
+				for _, kv := range strings.Split(strings.TrimSuffix(strings.TrimPrefix(p.exit, "next("), ")"), ",") {
+					for i, nm := range names {
+						if strings.HasPrefix(kv, nm+"=") {
+							var x int64
+							if _, err := fmt.Sscanf(kv[len(nm)+1:], "%d", &x); err == nil {
+								next[i] = x
+							}
+						}
+					}
+				}
+			} else {
+				got += " return " + retKind(k)
+			}
+			if len(other) > 0 {
+				got += " other effects " + strings.Join(other, "; ")
+			}
+			isStruct := strings.IndexByte("(),:;", byte(b)) >= 0
+			isBlank := b == ' ' || b == '\t' || b == '\n' || b == '\r'
+			want, wantNext := "", spec{-1, -1}
+			switch {
+			case t.q == 1 && b == '\'':
+				want, wantNext = "writes=1 unreads=0 next", spec{1, 1 - t.aq}
+			case t.q == 1 && t.aq == 1:
+				want = "writes=0 unreads=1 return token"
+			case t.q == 1:
+				want, wantNext = "writes=1 unreads=0 next", spec{1, 0}
+			case b == '\'' && ne == 1:
+				want = "writes=0 unreads=0 return error"
+			case b == '\'':
+				want, wantNext = "writes=1 unreads=0 next", spec{1, 0}
+			case isStruct && ne == 1:
+				want = "writes=0 unreads=1 return token"
+			case isStruct:
+				want = "writes=0 unreads=0 return byte"
+			case isBlank && ne == 1:
+				want = "writes=0 unreads=0 return token"
+			case isBlank:
+				want, wantNext = "writes=0 unreads=0 next", spec{0, 0}
+			default:
+				want, wantNext = "writes=1 unreads=0 next", spec{0, 0}
+			}
+			nChecked++
+			seen[[2]int64{ne, int64(b)}] = true
+			at := fmt.Sprintf("state %v (inQuote=%d afterQuote=%d) pending=%d byte %s", cur, t.q, t.aq, ne, byteStr(b))
+			if got != want {
+				note(at + ": " + got + ", want " + want)
+				continue
+			}
+			if !isNext {
+				continue
+			}
+			unknown := false
+			for _, x := range next {
+				if x == -1<<40 {
+					unknown = true
+				}
+			}
+			if unknown {
+				note(at + ": the next state is not a constant (" + p.exit + ")")
+				continue
+			}
+			if old, ok := stands[key(next)]; !ok {
+				stands[key(next)] = wantNext
+				work = append(work, next)
+			} else if old != wantNext {
+				note(fmt.Sprintf("%s: leads to state %v, which was reached as inQuote=%d afterQuote=%d and is needed here as inQuote=%d afterQuote=%d", at, next, old.q, old.aq, wantNext.q, wantNext.aq))
+			}
+		}
+		if len(seen) < 2*256 {
+			r.undecided("TOK", where, "coverage", pos, fmt.Sprintf("only %d of %d (pending, byte) points of the reachable state %v could be evaluated", len(seen), 2*256, cur))
+			return
+		}
+	}
+	r.Extra["newick_tokenizer_points_checked"] = nChecked
+	r.check(len(bad) == 0 && nStates >= 3, "TOK", where, "transition function", pos,
+		fmt.Sprintf("from the initial state the tokenizer reaches %d states; all their (token pending, byte) transitions match the Newick token grammar (%d automaton points)", nStates, nChecked),
+		fmt.Sprintf("the tokenizer deviates from the Newick token grammar (%d states reached): %s", nStates, strings.Join(bad, "; ")))
 }
 
 // rulesNewickParser (PARSE): the transition function of the Newick tree parser over (parser state, kind of the
